@@ -38,11 +38,11 @@ type valLevel struct {
 func valLevelOf(b *recB, light bool) valLevel {
 	switch {
 	case light:
-		return valLevel{blocks: 60, perBlock: 40, maxTxns: 4}
+		return valLevel{blocks: 40, perBlock: 20, maxTxns: 4}
 	case b.Quick():
-		return valLevel{blocks: 175, perBlock: 110, maxTxns: 5}
+		return valLevel{blocks: 165, perBlock: 70, maxTxns: 5}
 	default:
-		return valLevel{blocks: 420, perBlock: 2500, maxTxns: 6}
+		return valLevel{blocks: 300, perBlock: 600, maxTxns: 6}
 	}
 }
 
@@ -818,6 +818,70 @@ func (v *valmon) directedMuts(cs consensus.State, orig *types.Block) []mut {
 			}})
 		}
 	}
+	if v1ok && len(orig.Transactions) > 0 {
+		// IDs of every element an earlier v1 transaction of the block touches, by kind; a later transaction
+		// then names such an ID as a parent of ANOTHER kind
+		ids := map[string][]types.Hash256{}
+		addID := func(kind string, id types.Hash256) { ids[kind] = append(ids[kind], id) }
+		for i := range orig.Transactions {
+			t := &orig.Transactions[i]
+			for _, in := range t.SiacoinInputs {
+				addID("siacoin", types.Hash256(in.ParentID))
+			}
+			for k := range t.SiacoinOutputs {
+				addID("siacoin", types.Hash256(t.SiacoinOutputID(k)))
+			}
+			for _, in := range t.SiafundInputs {
+				addID("siafund", types.Hash256(in.ParentID))
+				addID("siacoin", types.Hash256(in.ParentID.ClaimOutputID()))
+			}
+			for k := range t.SiafundOutputs {
+				addID("siafund", types.Hash256(t.SiafundOutputID(k)))
+			}
+			for k := range t.FileContracts {
+				addID("contract", types.Hash256(t.FileContractID(k)))
+			}
+			for _, r := range t.FileContractRevisions {
+				addID("contract", types.Hash256(r.ParentID))
+			}
+			for _, sp := range t.StorageProofs {
+				addID("contract", types.Hash256(sp.ParentID))
+			}
+		}
+		refs := []struct {
+			kind string
+			mk   func(id types.Hash256) types.Transaction
+		}{
+			{"siacoin", func(id types.Hash256) types.Transaction {
+				return types.Transaction{SiacoinInputs: []types.SiacoinInput{{ParentID: types.SiacoinOutputID(id)}}, SiacoinOutputs: []types.SiacoinOutput{{Value: types.NewCurrency64(1), Address: dest}}}
+			}},
+			{"siafund", func(id types.Hash256) types.Transaction {
+				return types.Transaction{SiafundInputs: []types.SiafundInput{{ParentID: types.SiafundOutputID(id)}}, SiafundOutputs: []types.SiafundOutput{{Value: 1, Address: dest}}}
+			}},
+			{"contract", func(id types.Hash256) types.Transaction {
+				return types.Transaction{FileContractRevisions: []types.FileContractRevision{{ParentID: types.FileContractID(id), FileContract: types.FileContract{RevisionNumber: 1, WindowStart: h + 5, WindowEnd: h + 10}}}}
+			}},
+			{"contract-proof", func(id types.Hash256) types.Transaction {
+				return types.Transaction{StorageProofs: []types.StorageProof{{ParentID: types.FileContractID(id)}}}
+			}},
+		}
+		for _, ref := range refs {
+			for _, idKind := range []string{"siacoin", "siafund", "contract"} {
+				if strings.HasPrefix(ref.kind, idKind) || len(ids[idKind]) == 0 {
+					continue
+				}
+				l := ids[idKind]
+				pick := map[string]types.Hash256{"first": l[0], "last": l[len(l)-1]}
+				for which, id := range pick {
+					ref, id := ref, id
+					muts = append(muts, mut{op: "cross-kind-parent-id", field: "v1.appended-transaction." + ref.kind + "-parent", val: which + "-" + idKind + "-id-of-the-block", directed: true, noResign: true, f: func(blk *types.Block) bool {
+						blk.Transactions = append(blk.Transactions, ref.mk(id))
+						return true
+					}})
+				}
+			}
+		}
+	}
 	if !v2ok {
 		return muts
 	}
@@ -922,6 +986,41 @@ func (v *valmon) directedMuts(cs consensus.State, orig *types.Block) []mut {
 				tt.SiacoinInputs[ii].Parent.SiacoinOutput.Value = curMax
 				return true
 			}})
+		}
+		for ii, in := range t.SiafundInputs {
+			if in.Parent.StateElement.LeafIndex != types.UnassignedLeafIndex {
+				continue
+			}
+			ii := ii
+			muts = append(muts, mut{op: "ephemeral-siafund-claim-start", field: "v2.SiafundInputs[].Parent.ClaimStart(ephemeral)", val: "2^128-1", directed: true, f: func(blk *types.Block) bool {
+				blk.V2.Transactions[j].SiafundInputs[ii].Parent.ClaimStart = curMax
+				return true
+			}})
+		}
+		if len(t.SiafundOutputs) > 0 {
+			// pay siafunds to an anyone-can-spend address, then spend that ephemeral output with a claim start
+			// above the current tax revenue (not checked below EphemeralOutputHeight)
+			for _, cs0 := range []struct {
+				s string
+				c types.Currency
+			}{{"2^128-1", curMax}, {"2^127", cur2p127}} {
+				cs0 := cs0
+				muts = append(muts, mut{op: "ephemeral-siafund-claim-start", field: "v2.appended-spend-of-ephemeral-siafund-output", val: cs0.s, directed: true, f: func(blk *types.Block) bool {
+					tt := &blk.V2.Transactions[j]
+					if referencedLater(blk, j) {
+						return false
+					}
+					o0 := tt.SiafundOutputs[0]
+					tt.SiafundOutputs[0].Address = anyone.Address()
+					v.c.SignV2(cs, tt, nil)
+					id := tt.ID()
+					spend := types.V2Transaction{SiafundInputs: []types.V2SiafundInput{{Parent: types.SiafundElement{ID: tt.SiafundOutputID(id, 0), StateElement: types.StateElement{LeafIndex: types.UnassignedLeafIndex},
+						SiafundOutput: types.SiafundOutput{Value: o0.Value, Address: anyone.Address()}, ClaimStart: cs0.c}, ClaimAddress: dest, SatisfiedPolicy: types.SatisfiedPolicy{Policy: anyone}}},
+						SiafundOutputs: []types.SiafundOutput{{Value: o0.Value, Address: dest}}}
+					blk.V2.Transactions = append(blk.V2.Transactions, spend)
+					return true
+				}})
+			}
 		}
 		if len(t.SiacoinOutputs) > 0 {
 			// pay to anyone-can-spend outputs, then spend them in a later transaction of the block, claiming 2^128-1 each
@@ -1154,6 +1253,9 @@ func (v *valmon) onAccepted(cs consensus.State, orig types.Block, bs consensus.V
 		}
 	}
 
+	if v.seg.Parts > 1 && int(h%uint64(v.seg.Parts)) != v.seg.Part {
+		return
+	}
 	tmpl := chaingen.CloneBlock(orig)
 	var directed, generic []mut
 	directed = append(directed, v.directedMuts(cs, &tmpl)...)
@@ -1167,11 +1269,12 @@ func (v *valmon) onAccepted(cs consensus.State, orig types.Block, bs consensus.V
 	if len(generic) > v.lv.perBlock {
 		// keep a sample that is stratified by operator
 		v.vrng.Shuffle(len(generic), func(i, j int) { generic[i], generic[j] = generic[j], generic[i] })
-		perOp := map[string]int{}
+		// ... and by field: first one variant of every (operator, field class), then a random fill
+		perField := map[string]int{}
 		var keep, rest []mut
 		for _, mt := range generic {
-			if perOp[mt.op] < 3 {
-				perOp[mt.op]++
+			if k := mt.op + "|" + mt.field; perField[k] < 1 && len(keep) < 2*v.lv.perBlock {
+				perField[k]++
 				keep = append(keep, mt)
 			} else {
 				rest = append(rest, mt)
